@@ -440,11 +440,12 @@ package raft
 //@ func Raft.sendRequestVote
 //@   requires votes != nil
 //@   requires [spawn-self-counted] *votes == 1
+//@   requires [spawn-current-round] votes == r.votes
 //@   release before:r.transport.SendRequestVote [truthful] request.CandidateID == r.id && request.LastLogIndex == Llast && request.LastLogTerm == Lterm[Llast] && request.Prevote == prevote && (prevote ==> request.Term == r.currentTerm + 1) && (!prevote ==> request.Term == r.currentTerm)
 //@   release before:r.transport.SendRequestVote [voter] r.configuration.IsVoter[id] && r.configuration.IsVoter[r.id]
-//@   at before-assign *votes assert [count] response.VoteGranted && err == nil && r.currentTerm <= request.Term && request.Prevote == prevote
-//@   at call r.becomeCandidate assert [candidate-after-prevote] prevote && r.state == PreCandidate && request.Term == r.currentTerm + 1 && cnt(dom(r.configuration.IsVoter), vals(r.configuration.IsVoter)) < 2 * *votes
-//@   at call r.becomeLeader assert [becomeLeader.entry] !prevote && r.state == Candidate && request.Term == r.currentTerm && 2 * *votes > cntVoters(r.configuration)
+//@   at before-assign *votes assert [count] response.VoteGranted && err == nil && r.currentTerm <= request.Term && request.Prevote == prevote && votes == r.votes
+//@   at call r.becomeCandidate assert [candidate-after-prevote] votes == r.votes && prevote && r.state == PreCandidate && request.Term == r.currentTerm + 1 && cnt(dom(r.configuration.IsVoter), vals(r.configuration.IsVoter)) < 2 * *votes
+//@   at call r.becomeLeader assert [becomeLeader.entry] votes == r.votes && !prevote && r.state == Candidate && request.Term == r.currentTerm && 2 * *votes > cntVoters(r.configuration)
 
 //@ func Raft.becomeLeader
 //@   flags lockheld
